@@ -40,6 +40,9 @@ static const char* wkind(const std::string& m) {
   if (m.find("Long (HIERARCH) FITS header keywords must not") == 0) return "haslower";
   if (m.find("Long (HIERARCH) FITS header keyword leaves no room") == 0) return "keytoolong";
   if (m.find("Value is too long") == 0) return "valuetoolong";
+  if (m.find("FITS header keywords must not be empty or begin") == 0) return "edgeblank";
+  if (m.find("Long (HIERARCH) FITS header keywords may only contain printable") == 0) return "keynonprint";
+  if (m.find("Value contains a character other than printable ASCII") == 0) return "valuenonprint";
   return "other-exception";
 }
 
@@ -96,8 +99,9 @@ static std::string gen_key(Rng& r, std::string& cat) {
   }
   // keys that cfitsio does not store verbatim
   cat = "odd";
-  static const char* fixed[] = {"", " LEADING SP", "TRAILING SP ", "HIERARCH FOO", "HISTORY", "CONTINUE", "END", "         ", "HIERARCH  TWO BLANKS"};
-  return fixed[r.below(9)];
+  static const char* fixed[] = {"", " LEADING SP", "TRAILING SP ", "HIERARCH FOO", "HISTORY", "CONTINUE", "END", "         ", "HIERARCH  TWO BLANKS",
+                                "LONG\tKEY NAME", "LONG KEY \x7f DEL", "K\xc3\x89Y LONG NAME", " ", "ENDPOINT", "HISTORY1", "HIERARCHY", "CONTINUED"};
+  return fixed[r.below(17)];
 }
 
 // maxdatalen as the *documentation* of the format has it (independent of write_key): used only to aim values at the limit
@@ -112,7 +116,7 @@ static std::string gen_value(Rng& r, const std::string& key, std::string& cls) {
   int c = r.below(100);
   if (c < 8) { cls = "empty"; return ""; }
   if (c < 30) { cls = "plain"; static const char* f[] = {"x", "hello", "some value", "12345678", "123456789", " lead", "trail ", "a/b", "k=v", "  "}; return f[r.below(10)]; }
-  if (c < 42) { cls = "numeric-text"; static const char* f[] = {"42", " 17", "-5x", "1e5", "99999999999", "-99999999999", "+7", "-", "0x10", "2147483647", "2147483648", "-2147483648", "-2147483649", "007", "3.25", ".5", "1e", "abc", "\t12", "nan", "inf"}; return f[r.below(21)]; }
+  if (c < 42) { cls = "numeric-text"; static const char* f[] = {"42", " 17", "-5x", "1e5", "99999999999", "-99999999999", "+7", "-", "0x10", "2147483647", "2147483648", "-2147483648", "-2147483649", "007", "3.25", ".5", "1e", "abc", "\t12", "nan", "inf", "caf\xc3\xa9", "a\x7f" "b", "two\nlines", "tab\t"}; return f[r.below(25)]; }
   if (c < 62) { // at / around the limit, no quotes
     int d = r.range(-1, 1); int len = room + d; if (len < 0) len = 0; if (len > 400) len = 400;
     cls = d < 0 ? "max-1" : (d == 0 ? "max" : "max+1");
